@@ -637,7 +637,28 @@ func (in *Interp) selectOp(fr *frame, instr *ssa.Select) Value {
 	chosen := -1
 	var recv Value
 	recvOk := false
-	for i, st := range instr.States {
+	order := make([]int, len(instr.States))
+	for i := range order {
+		order[i] = i
+	}
+	if in.env.selectNondet {
+		// Go chooses uniformly among the ready cases: fork over which ready case is taken
+		var ready []int
+		for i, st := range instr.States {
+			ch, _ := fr.get(st.Chan).(*ChanV)
+			if ch == nil {
+				continue
+			}
+			if st.Dir == types.RecvOnly && (len(ch.Buf) > 0 || ch.Closed) || st.Dir != types.RecvOnly && (ch.Closed || len(ch.Buf) < ch.Cap) {
+				ready = append(ready, i)
+			}
+		}
+		if len(ready) > 1 {
+			order = []int{ready[in.pick("select", len(ready))]}
+		}
+	}
+	for _, i := range order {
+		st := instr.States[i]
 		ch, _ := fr.get(st.Chan).(*ChanV)
 		if ch == nil {
 			continue
